@@ -302,6 +302,55 @@ fn limit_family(ctx: &Ctx, ops_pairs: &[(String, u8)], report: &mut Report) -> V
         let text: String = (0..n).map(|i| format!("{}", i % 10)).collect();
         out.push(mk("limit_interpolation_parts", format!("print(\"{}\");\n", parts), if oke { vec![Box::leak(text.into_boxed_str())] } else { vec![] }, if oke { "ok" } else { cerr }, json!({"parts": n})));
     }
+    // interpolation parts in every arrangement: a part is an expression or a non-empty stretch of literal
+    // text; P parts in total for P = 253..258 as expressions only, with a literal tail, with a literal head,
+    // with both, as literal-expression pairs (with and without a tail), and as expression-literal pairs
+    for total in 253usize..=258 {
+        for shape in 0..7 {
+            // pieces: Some(digit) = expression part, None = literal part "a"
+            let mut pieces: Vec<Option<usize>> = Vec::new();
+            match shape {
+                0 => pieces.extend((0..total).map(|i| Some(i % 10))),
+                1 => {
+                    pieces.extend((0..total - 1).map(|i| Some(i % 10)));
+                    pieces.push(None);
+                }
+                2 => {
+                    pieces.push(None);
+                    pieces.extend((0..total - 1).map(|i| Some(i % 10)));
+                }
+                3 => {
+                    pieces.push(None);
+                    pieces.extend((0..total - 2).map(|i| Some(i % 10)));
+                    pieces.push(None);
+                }
+                4 | 5 => {
+                    // literal first (4) or expression first (5), alternating
+                    let mut lit = shape == 4;
+                    for i in 0..total {
+                        pieces.push(if lit { None } else { Some(i % 10) });
+                        lit = !lit;
+                    }
+                }
+                _ => {
+                    // two expressions, then a literal, repeated
+                    for i in 0..total {
+                        pieces.push(if i % 3 == 2 { None } else { Some(i % 10) });
+                    }
+                }
+            }
+            let src_text: String = pieces.iter().map(|p| match p { Some(d) => format!("${{{}}}", d), None => "a".to_string() }).collect();
+            let printed: String = pieces.iter().map(|p| match p { Some(d) => format!("{}", d), None => "a".to_string() }).collect();
+            let okp = total <= 255;
+            out.push(mk(
+                "limit_interpolation_parts_arranged",
+                format!("var before = \"before\";\nvar s = \"{}\";\nvar after = \"after\";\nprint(s);\nprint(before);\nprint(after);\n", src_text),
+                if okp { vec![Box::leak(printed.into_boxed_str()), "before", "after"] } else { vec![] },
+                if okp { "ok" } else { cerr },
+                json!({"parts": total, "arrangement": shape}),
+            ));
+        }
+    }
     // the local that reaches the limit is declared by each declaring form in turn (k plain locals, then
     // the form, then uses of the first and last plain local and of what the form computed)
     let forms: [(&str, &str, usize, i64); 6] = [
@@ -454,7 +503,7 @@ pub fn run(ctx: &Ctx) -> Report {
     report.cov("evaluations", json!(acc.functions + n_limits));
     report.cov("distinct_nontrivial", json!(acc.functions));
     report.cov("exhaustive", json!(true));
-    report.cov("rule", json!("O1: for every function compiled from the corpus (repository scripts, core.yl, and every program of the C05/C06/C07/C08/C18 generators at their quick bounds) the abstract state space (pc, operand-stack height) is explored exhaustively by worklist, with exceptional edges into catch/finally targets and the return edges of finally blocks; in every state: operands inside the code, jump targets on instruction boundaries, constants in range and of the right kind, local slot < height, capture indices in range, no underflow, no fall-off; each pc has exactly one height. Conformance: with the instruction-trace hook every concretely executed (function, pc, height) must be in the abstract set. O3: for each jump kind a body is sized (2- and 3-byte filler statements, operand measured from the emitted code) so that the distance is 65534..65537; counts of locals (plain, and with the limit reached by a for loop, a catch variable, a local function, a local class, a block local, a derived local class), captures, parameters/arguments, vec/tuple/map elements, interpolation parts at 254..257 and constants at the chunk limit: each program is rejected with a compile error or prints exactly the expected lines."));
+    report.cov("rule", json!("O1: for every function compiled from the corpus (repository scripts, core.yl, and every program of the C05/C06/C07/C08/C18 generators at their quick bounds) the abstract state space (pc, operand-stack height) is explored exhaustively by worklist, with exceptional edges into catch/finally targets and the return edges of finally blocks; in every state: operands inside the code, jump targets on instruction boundaries, constants in range and of the right kind, local slot < height, capture indices in range, no underflow, no fall-off; each pc has exactly one height. Conformance: with the instruction-trace hook every concretely executed (function, pc, height) must be in the abstract set. O3: for each jump kind a body is sized (2- and 3-byte filler statements, operand measured from the emitted code) so that the distance is 65534..65537; counts of locals (plain, and with the limit reached by a for loop, a catch variable, a local function, a local class, a block local, a derived local class), captures, parameters/arguments, vec/tuple/map elements, interpolation parts at 254..257 (and 253..258 in seven arrangements of expression and literal parts) and constants at the chunk limit: each program is rejected with a compile error or prints exactly the expected lines."));
     report.cov("bounds", json!({"corpus_programs": n_sources, "limit_programs": n_limits}));
     report.cov("corpus_by_family", json!(fam_count));
     report.cov("functions_analysed", json!(acc.functions));
